@@ -172,11 +172,14 @@ CLAIMED['C17'] = (
 )
 
 CLAIMED['C18'] = (
-    'two-sort (label / position) type inference over the five MDCEV modules, seeded from definitions (index_to_key, key_to_index, API parameters), plus an ownership rule for array parameters (ast)',
-    'Decides the clause "whatever integer labels the alternatives carry": every subscript, comparison and keyword argument whose operands can be typed (140 today) respects the two sorts - '
+    'two-sort (label / position) type inference over the five MDCEV modules, seeded from definitions (index_to_key, key_to_index, API parameters); ownership rule for array parameters; '
+    'closed forms of the four variants translated to sympy per configuration and compared in normal form (utility, its derivative, its inverse) (ast + sympy as normaliser)',
+    'Decides the clause "whatever integer labels the alternatives carry": every subscript, comparison and argument whose operands can be typed (140 today) respects the two sorts - '
     'label-keyed containers are indexed by labels, positional arrays (epsilon, consumptions, x, bounds) by positions obtained through key_to_index / enumerate(index_to_key); a label-keyed '
     'dictionary is flattened only in the order of index_to_key; key_to_index is built as the inverse of index_to_key; no method modifies a caller-owned array of error terms in place. '
-    'Not decided: KKT conditions, budget exhaustion, optimality, agreement of utility/derivative/inverse formulas (numerical).',
+    'Decides the clause "the numeric utility equals the symbolic utility, its derivative is the derivative of that utility, the closed-form optimal consumption inverts that derivative" '
+    'for all four variants and all configurations (gamma / scale / prices present or absent), at generic interior points. '
+    'Not decided: KKT conditions, budget exhaustion, optimality against brute force (numerical), boundary branches of the closed forms.',
     'DESIGN.md 3/C18',
 )
 
